@@ -19,6 +19,7 @@ import (
 
 	"verif/pkg/prng"
 	"verif/pkg/proto"
+	"verif/pkg/schema"
 	"verif/pkg/simnet"
 	"verif/simrt"
 )
@@ -495,6 +496,7 @@ func runC14(c *Ctx) *Replay {
 	}
 	p := ps[r.Intn(len(ps))]
 	sc := Scenario{Kind: "concurrent", Prog: p.ID, Extra: map[string]string{}}
+	sc.Extra["layout"] = fmt.Sprint(r.Intn(4))
 	withImport := r.Chance(2, 3)
 	spare := 0
 	if r.Chance(3, 4) {
@@ -639,6 +641,12 @@ func execConcurrent(n *Node, sc *Scenario) *Violation {
 	}
 	withImport := sc.Extra["import"] == "true"
 	spare := int(atoiDefault(sc.Extra["spare"], 0))
+	if lay := atoiDefault(sc.Extra["layout"], 0); lay > 0 {
+		// the same schema in another layout (comments, CRLF, trailing remarks)
+		cp := *prog
+		cp.Bop = prog.Schema.PrintLayout(schema.Layout{Indent: "\t", Comments: true, Block: lay == 2, CRLF: lay == 3, Trailing: int(lay) % 3})
+		prog = &cp
+	}
 	// prelude: the complementary call (every option flipped) of each task, so that the
 	// scenario itself contains a history of calls with different settings; state that a
 	// first call freezes then conflicts with the tasks in ANY process, also a replay's
